@@ -457,15 +457,20 @@ class TrimWhitespaces(FullAstVisitor):
 
     def visit_FunctionNode(self, node: mparser.FunctionNode) -> None:
         if node.func_name.value == 'files':
+            # Flatten every level first and sort afterwards, so that a second
+            # run has nothing left to do.
+            while len(node.args.arguments) == 1 and not node.args.kwargs:
+                arg = node.args.arguments[0]
+                if not isinstance(arg, mparser.ArrayNode):
+                    break
+                # The brackets go away: do not lose a comment attached to them
+                if any(b.whitespaces and b.whitespaces.value.strip() for b in (arg.lbracket, arg.rbracket, *node.args.commas)):
+                    break
+                # files([...]) -> files(...)
+                node.args = arg.args
+
             if self.config.sort_files:
                 self.sort_arguments(node.args)
-
-            if len(node.args.arguments) == 1 and not node.args.kwargs:
-                arg = node.args.arguments[0]
-                if isinstance(arg, mparser.ArrayNode):
-                    if not arg.lbracket.whitespaces or not arg.lbracket.whitespaces.value.strip():
-                        # files([...]) -> files(...)
-                        node.args = arg.args
 
         super().visit_FunctionNode(node)
         self.move_whitespaces(node.rpar, node)
